@@ -86,8 +86,8 @@ def make_many_chunks_case(r, flavour):
     return t
 
 
-# duplicate policies the numpy / dict_wh shapes draw from (remove_duplicates None / False)
-SHAPE_POLICIES = ['error', 'keep']
+# duplicate policies the numpy / dict_wh shapes draw from (remove_duplicates None / False / True)
+SHAPE_POLICIES = ['error', 'keep', 'dedup']
 
 
 def make_shape_case(r, method, repeat_side=None):
